@@ -13,6 +13,7 @@ import (
 	"reflect"
 	"sort"
 	"strings"
+	"verif/harness/hx"
 
 	"github.com/PapaCharlie/go-restli/v2/restli"
 	"github.com/PapaCharlie/go-restli/v2/restlidata/generated/com/linkedin/restli/common"
@@ -646,7 +647,7 @@ func (t *transport) RoundTrip(req *http.Request) (*http.Response, error) {
 		if err == nil {
 			rb, _ := io.ReadAll(res.Body)
 			res.Body.Close()
-			res.Body = io.NopCloser(bytes.NewReader(rb))
+			res.Body = hx.ShortReads(rb)
 		}
 	case "wire":
 		// real net/http serialisation in both directions, no socket
@@ -672,11 +673,11 @@ func (t *transport) RoundTrip(req *http.Request) (*http.Response, error) {
 		if err == nil {
 			rb, _ := io.ReadAll(res.Body)
 			res.Body.Close()
-			res.Body = io.NopCloser(bytes.NewReader(rb))
+			res.Body = hx.ShortReads(rb)
 		}
 	default:
 		sreq := req.Clone(req.Context())
-		sreq.Body = io.NopCloser(bytes.NewReader(body))
+		sreq.Body = hx.ShortReads(body)
 		sreq.ContentLength = int64(len(body))
 		sreq.RequestURI = req.URL.RequestURI()
 		rec := httptest.NewRecorder()
@@ -689,7 +690,7 @@ func (t *transport) RoundTrip(req *http.Request) (*http.Response, error) {
 		return nil, err
 	}
 	rb, _ := io.ReadAll(res.Body)
-	res.Body = io.NopCloser(bytes.NewReader(rb))
+	res.Body = hx.ShortReads(rb)
 	c.status, c.respHdr, c.respBody = res.StatusCode, cloneHeader(res.Header), rb
 	return res, nil
 }
